@@ -281,7 +281,7 @@ func scenarioC19(c *RunCtx) {
 			y[i] = off + float64(rng.Intn(9)+1)/4
 		}
 		checkSeries(c, y, "a synthetic series of large magnitude and small spread")
-		c.Count("probe.series.large_offset", "probe.series.updated_in_place", "probe.experiment.modular_champions", "probe.best_among_solvers")
+		c.Count("probe.series.large_offset")
 		// a series its owner keeps updating in place between queries (the same backing array, the same length: a running
 		// window of results): every query must describe the contents of the moment
 		z := append(experiment.Floats(nil), x...)
